@@ -36,11 +36,6 @@ var sanitize = regexp.MustCompile(`[^A-Za-z0-9_]`)
 
 // World holds declarations shared by all obligations of one function.
 type World struct {
-	// axHyps, when non-nil, collects the side facts (typing, allocation) of an axiom under evaluation: they mention the
-	// axiom's universally bound heaps, where they are hypotheses ("for well-typed heaps"), not facts.
-	axHyps      *[]string
-	axInner     int // binders from axOuter up to here are the axiom's own
-	axOuter     int // number of binders that belong to the axiom itself (heaps + declared binders are added after this index)
 	decls       []string
 	asserts     []string
 	n           int
@@ -82,22 +77,13 @@ func (w *World) assume(s string) {
 		s = "(=> " + w.curPC + " " + s + ")"
 	}
 	var vs []string
-	mentionsAx := false
-	for i, b := range w.binders {
+	for _, b := range w.binders {
 		if strings.Contains(s, b.name) {
-			if w.axHyps != nil && i >= w.axOuter && i < w.axInner {
-				mentionsAx = true // a binder of the axiom itself: stays free in the hypothesis
-				continue
-			}
 			vs = append(vs, "("+b.name+" "+b.sort+")")
 		}
 	}
 	if len(vs) > 0 {
 		s = "(forall (" + strings.Join(vs, " ") + ") " + s + ")"
-	}
-	if mentionsAx {
-		*w.axHyps = append(*w.axHyps, s)
-		return
 	}
 	w.asserts = append(w.asserts, s)
 	w.events = append(w.events, event{assert: s})
@@ -598,7 +584,8 @@ func (w *World) loadAddr(a Addr, st *State, resT types.Type) Term {
 			}
 		}
 	}
-	if al, ok := st.heap["alloc"]; ok {
+	// (not inside an axiom closed over heaps: "allocated in every allocation set" would be false)
+	if al, ok := st.heap["alloc"]; ok && !heapBound {
 		if pt, isPtr := t.Underlying().(*types.Pointer); isPtr {
 			if _, isStruct := pt.Elem().Underlying().(*types.Struct); isStruct {
 				w.assume(fmt.Sprintf("(or (= %s 0) (select %s %s))", v.S, al.S, v.S))
@@ -1524,6 +1511,10 @@ func (g *Gen) call(c *ssa.CallCommon, res ssa.Value, st *State, pos token.Pos) {
 						env.results = append(env.results, g.tupleElem(res, i, tup.At(i).Type()))
 					}
 					env.ifaceSig = types.NewSignatureType(nil, nil, nil, nil, tup, false)
+				} else if v, ok := g.vals[res]; ok {
+					// single result: `result` is the value the call produced
+					env.results = append(env.results, v)
+					env.ifaceSig = types.NewSignatureType(nil, nil, nil, nil, types.NewTuple(types.NewVar(token.NoPos, nil, "", res.Type())), false)
 				}
 			}
 			v, err := env.eval(d.Expr)
@@ -2661,4 +2652,15 @@ func (g *Gen) addObNoAssume(kind, name string, pos token.Pos, st *State, cond st
 	ob := Oblig{Name: name, Kind: kind, Pos: g.w.prog.Fset.Position(pos), PC: st.pc, Cond: cond}
 	g.obs = append(g.obs, ob)
 	g.w.events = append(g.w.events, event{ob: &ob})
+}
+
+// heapBound reports whether a heap-sorted variable is currently bound (an axiom closed over all heaps is being evaluated):
+// typing and allocation facts about what is read from "every heap" would be false, so they are not stated there.
+func (w *World) heapBound() bool {
+	for _, bd := range w.binders {
+		if strings.HasPrefix(bd.sort, "(Array") {
+			return true
+		}
+	}
+	return false
 }
